@@ -22,7 +22,7 @@ ASSUMPTIONS = ["exact rational arithmetic (fractions) for all predicates", "quer
 FLOORS = {'quick': {'ray-status': 1500, 'ray-params': 500, 'is_left': 1500, 'wn_poly': 5000, 'hull': 300, 'voxel-fill': 1500,
                     'voxel-cover': 500, 'find_ctrlpts': 300},
           'thorough': {'ray-status': 15000, 'wn_poly': 50000, 'hull': 3000, 'voxel-fill': 15000}}
-MANDATORY_TAGS = ['ray:cross2d', 'ray:cross3d', 'ray:parallel', 'ray:coincident', 'ray:skew', 'ray:generic-cross2d', 'ray:generic-cross3d', 'ray:coords<=1000', 'ray:scale=2^-24', 'ray:scale=2^20', 'poly:star', 'poly:orthogonal',
+MANDATORY_TAGS = ['ray:cross2d', 'ray:cross3d', 'ray:parallel', 'ray:coincident', 'ray:skew', 'vox:planar-axis-aligned', 'ray:generic-cross2d', 'ray:generic-cross3d', 'ray:coords<=1000', 'ray:scale=2^-24', 'ray:scale=2^20', 'poly:star', 'poly:orthogonal',
                   'poly:cw', 'poly:ccw', 'hull:collinear', 'vox:surface', 'vox:volume', 'vox:cubes', 'find:unnormalized']
 TECHNIQUE = ("runtime monitoring: exact-arithmetic oracles (orientation, crossing parity, definitional hull test, exact line "
              "intersection, point-in-box) on every predicate / query call of a constructed-class workload")
@@ -359,7 +359,31 @@ def check_voxel(case, ctx):
     ctx.tag('vox:surface' if pdim == 2 else 'vox:volume')
     if cubes:
         ctx.tag('vox:cubes')
-    grid, filled = voxelize.voxelize(o, grid_size=gs, use_cubes=cubes)
+    planar = pdim == 2 and rng.random() < 0.25
+    if planar:
+        # a planar, axis-aligned surface: the bounding box has zero extent along one axis
+        ax0, c0 = rng.randrange(3), float(rng.randint(-3, 3))
+        for pt in sd['ctrlpts']:
+            pt[ax0] = c0
+        o = G.build(sd)
+        o.sample_size = rng.randint(3, 6)
+        ctx.tag('vox:planar-axis-aligned')
+        ext = o.bbox[1][ax0] - o.bbox[0][ax0]
+        if ext != 0.0:
+            # rational: Pw/w leaves rounding noise of ~1e-16 in the flat coordinate; cubes with that edge length are 1e16 voxels per
+            # axis, which is what was asked for, not a defect
+            cubes = False
+    import signal
+    from ..core import CaseTimeout, CASE_TIMEOUT_S
+    signal.alarm(30)
+    try:
+        grid, filled = voxelize.voxelize(o, grid_size=gs, use_cubes=cubes)
+    except CaseTimeout:
+        ctx.fail('voxel/no-termination', 'voxelize(grid_size=%r, use_cubes=%r) of a %s did not return within 30 s (a few dozen sampled '
+                 'points, at most 512 voxels)' % (gs, cubes, 'planar axis-aligned surface' if planar else 'shape'))
+        return
+    finally:
+        signal.alarm(CASE_TIMEOUT_S)
     pts = [list(p) for p in o.evalpts]
     bb = o.bbox
     tol = 10e-8
